@@ -35,6 +35,8 @@ Verdict(e) ==
        ELSE IF Len(out) # Len(inp) THEN "batch-count"
        ELSE IF \E i \in 1..Len(out) : out[i].items # SelectSeq(inp[out[i].o + 1], LAMBDA r : r \in K) THEN "batch-content"
        ELSE "ok"
+  ELSE IF e.op = "sortlate" THEN      \* a long stream with one very late batch through SortBatches
+       IF out = SortOut(inp) THEN "ok" ELSE "output"
   ELSE IF e.op \in {"pool_filter", "pipeline"} THEN
        IF out = FilterOut(inp, K, e.size) THEN "ok" ELSE "output"
   ELSE IF e.op = "concat" THEN
